@@ -51,6 +51,9 @@ def run(ctx):
     # guided part: the single-request schedules of Scenarios.tla that end a request inside the retry window (an admitted
     # retry that cannot start: deadline passed during the back-off, every host failing its health check meanwhile, timer
     # and reset callbacks racing the retry) - after each run the clusters' books must be back at zero
+    # the implementation-shaped model of downstream.go carries the retries resource a request holds (rheld): the intended
+    # design returns it on every path (RetriesReturned), the named defect NoCleanUpOnRetryAbort is rejected by TLC
+    lc.impl_model_checks(ctx)
     gcases = lc.scenario_cases(ctx, "Scenarios", "Scenarios.cfg")
     gwin = [c for c in gcases if c["hold"] in lc.RETRY_GATES or c["hold2"] in lc.RETRY_GATES or c.get("steps")]
     gdown = [c for c in gwin if c["during"] == "hostsdown"]
